@@ -77,6 +77,7 @@ fn key_matches(kind: &str, k: &CV, text: &str) -> bool {
 fn img_skip(img: &[String]) -> &[String] {
     match img[0].as_str() {
         "array" | "enum" => img_skip(&img[1..]),
+        "unencodable" => &img[1..],
         "kvlist" | "object" => img_skip(&img[2..]),
         _ => &img[1..],
     }
@@ -149,6 +150,25 @@ pub fn match_any(t: &Tables, cv: &CV, img: &[String], got: &NV, json_twin: bool)
                 if v.len() != g.len() {
                     return bad(format!("kvlist of {} entries", v.len()));
                 }
+                if img[1] == "Bytes" || img[1] == "SeqKey" {
+                    // the text form of such a key is not decided: non-empty, distinct texts,
+                    // and every value found under one of them (protobuf / JSON agreement is
+                    // the twin check)
+                    for (i, (gk, _)) in g.iter().enumerate() {
+                        if gk.is_empty() || g[..i].iter().any(|(o, _)| o == gk) {
+                            return bad("non-empty, distinct text keys".into());
+                        }
+                    }
+                    let mut used = vec![false; g.len()];
+                    for (k, c) in v {
+                        let hit = (0..g.len()).find(|&i| !used[i] && match_any(t, c, &img[2..], &g[i].1, json_twin).is_ok());
+                        match hit {
+                            Some(i) => used[i] = true,
+                            None => return bad(format!("an entry carrying the value of key {k:?}")),
+                        }
+                    }
+                    return Ok(());
+                }
                 for (k, c) in v {
                     let hits: Vec<&(String, NV)> = g.iter().filter(|(gk, _)| key_matches(&img[1], k, gk)).collect();
                     if hits.len() != 1 {
@@ -209,7 +229,7 @@ pub fn match_json(t: &Tables, cv: &CV, img: &[String], got: &JV) -> Result<(), S
     let bad = |want: String| Err(format!("want {want}, got {}", got.brief()));
     match img[0].as_str() {
         "null" => if matches!(got, JV::Null) { Ok(()) } else { bad("null".into()) },
-        "any" => Ok(()),
+        "any" | "unencodable" => Ok(()),
         "bool" => match (cv, got) {
             (CV::Bool(b), JV::Bool(g)) if b == g => Ok(()),
             _ => bad(format!("bool {cv:?}")),
